@@ -26,14 +26,14 @@ func init() {
 	mon.Register(&mon.Spec{
 		ID:    "C03",
 		Level: "exploration",
-		Rule: "the C01 value stream (deltas capped at 0x0FFFFFFF) with running status on and off, tracks whose bodies have exactly 127/128/255/256/16383/16384/65535/65536 bytes, and a sweep of the variable-length quantities through the public API " +
+		Rule: "the C01 value stream (deltas capped at 0x0FFFFFFF) with running status on and off, tracks whose bodies have exactly 127/128/255/256/16383/16384/65535/65536 bytes, a sweep of track body sizes (quick: +-40 bytes around every multiple of 4096 up to 128 KiB and all sizes 4..700; thorough: every size 4..70000), and a sweep of the variable-length quantities through the public API " +
 			"(tracks of events whose deltas enumerate the range: quick = all values < 2^22, +-512 around every 2^7k boundary, 2^28-1 and a stride sample; thorough = all 2^28 legal values), plus 5-byte values of the 32-bit range and payload sizes at every length-VLQ boundary. " +
 			"Every written byte stream goes through a strict SMF 1.0 validator. distinct: VLQ sweep values are distinct by construction; files by content hash; every case is non-trivial",
 		Assumptions: []string{
 			"the strict validator harness/ref/smf.go (header length 6, ntrks == number of MTrk chunks, exact chunk lengths, exactly one end-of-track and last, canonical VLQs of at most 4 bytes, running status only directly after a channel event of the same track, no alien chunks, no trailing bytes)",
 			"for deltas above 0x0FFFFFFF (5-byte form accepted by the API) only the round trip is required, not validity (statement)",
 		},
-		Require: []string{"files_validated", "vlq_values", "vlq_5byte_values", "bytes_emitted", "determinism_checks", "chunk_boundary_files", "length_vlq_boundaries", "running_status_events"},
+		Require: []string{"files_validated", "vlq_values", "vlq_5byte_values", "bytes_emitted", "determinism_checks", "chunk_boundary_files", "length_vlq_boundaries", "running_status_events", "body_sizes_swept"},
 		Run:     runC03,
 	})
 }
@@ -164,6 +164,96 @@ func runC03(c *mon.Ctx) {
 				c.Count("chunk_near_boundary_files", 1)
 			}
 			c.DistinctBytes(b)
+		}
+	})
+
+	// ---- body-size sweep: buffer pools, chunked copies and length fields have alignment windows;
+	// quick: +-40 around every multiple of 4096 up to 128 KiB; thorough: every size 4..70000
+	exactTrack := func(size int, r *mon.Rand) (smf.Track, []ref.Ev, bool) {
+		// body = [note 4 bytes]* + text meta (1+2+vlq(l)+l) + EOT (4)
+		var tr smf.Track
+		var sh []ref.Ev
+		remaining := size - 4
+		nNotes := r.Intn(3)
+		for k := 0; k < nNotes && remaining >= 12; k++ {
+			m := []byte{0x90 | byte(k), byte(r.Intn(128)), byte(1 + r.Intn(127))}
+			tr.Add(0, m)
+			sh = append(sh, ref.Ev{Delta: 0, Msg: m})
+			remaining -= 4
+		}
+		for remaining > 0 {
+			done := false
+			for l := remaining - 4; l >= 0 && l >= remaining-8; l-- {
+				if 3+ref.VLQLen(uint32(l))+l == remaining {
+					m := ref.Meta(0x01, bytes.Repeat([]byte{byte('a' + l%26)}, l))
+					tr.Add(0, m)
+					sh = append(sh, ref.Ev{Delta: 0, Msg: m})
+					remaining = 0
+					done = true
+					break
+				}
+			}
+			if done {
+				break
+			}
+			if remaining < 4 {
+				return nil, nil, false
+			}
+			m := []byte{0xB0 | byte(remaining&15), 1, 2} // explicit status, never equal to the previous one
+			if len(sh) > 0 && sh[len(sh)-1].Msg[0] == m[0] {
+				m[0] ^= 1
+			}
+			tr.Add(0, m)
+			sh = append(sh, ref.Ev{Delta: 0, Msg: m})
+			remaining -= 4
+		}
+		tr.Close(0)
+		sh = append(sh, ref.Ev{Delta: 0, Msg: ref.EOT})
+		return tr, sh, true
+	}
+	var sizes2 []int
+	if c.Thorough() {
+		for sz := 4; sz <= 70000; sz++ {
+			sizes2 = append(sizes2, sz)
+		}
+		c.MarkExhaustive("every track body size 4..70000 bytes")
+	} else {
+		for k := 1; k <= 32; k++ {
+			for d := -40; d <= 40; d++ {
+				sizes2 = append(sizes2, 4096*k+d)
+			}
+		}
+		for sz := 4; sz <= 700; sz++ {
+			sizes2 = append(sizes2, sz)
+		}
+	}
+	c.Each("body-size-sweep", int64(len(sizes2)), func(i int64, r *mon.Rand) {
+		size := sizes2[i]
+		tr, sh, ok := exactTrack(size, r)
+		if !ok {
+			return
+		}
+		s := smf.NewSMF1()
+		s.NoRunningStatus = i%2 == 0
+		s.Add(tr)
+		tracks := [][]ref.Ev{sh}
+		if i%3 == 0 { // a second track after it: a wrong length misaligns the next chunk
+			var t2 smf.Track
+			t2.Add(1, []byte{0x91, 1, 1})
+			t2.Close(2)
+			s.Add(t2)
+			tracks = append(tracks, []ref.Ev{{Delta: 1, Msg: []byte{0x91, 1, 1}}, {Delta: 2, Msg: ref.EOT}})
+		}
+		in := map[string]any{"track body size": size, "NoRunningStatus": s.NoRunningStatus, "tracks": len(tracks)}
+		if b := c03Check(c, s, &ref.File{Format: 1, Division: 960, Tracks: tracks}, in, true); b != nil {
+			body := int(b[18])<<24 | int(b[19])<<16 | int(b[20])<<8 | int(b[21])
+			if body == size {
+				c.Count("body_sizes_swept", 1)
+			}
+			if s2, err, p := readLib(c, "panic:ReadFrom", in, b); !p && (err != nil || ref.EqualFiles(&ref.File{Format: 1, Division: 960, Tracks: tracks}, fromLib(s2)) != "") {
+				c.Violation("sweep-readback", fmt.Sprintf("file with a track body of %d bytes does not read back: %v", size, err), in, nil, nil)
+			}
+			c.Enumerated(1)
 		}
 	})
 
